@@ -9,8 +9,9 @@ REPO = os.environ.get("VSG_SA_REPO", "/repo")
 
 
 class Ctx:
-    def __init__(self, repo=None, tier="quick", seed=0, overlay=None):
+    def __init__(self, repo=None, tier="quick", seed=0, overlay=None, conservative=False):
         self.overlay = overlay
+        self.conservative = conservative
         self.repo = repo or REPO
         self.tier = tier
         self.seed = seed
@@ -37,7 +38,7 @@ class Ctx:
 
     def callgraph(self, conservative=None):
         if conservative is None:
-            conservative = self.thorough
+            conservative = self.conservative
         if conservative not in self._cg:
             self._cg[conservative] = CallGraph(self.program, conservative=conservative)
         return self._cg[conservative]
